@@ -446,7 +446,7 @@ Proof.
   - intros inl inr c a _ _ IHa fuel acc. destruct fuel as [|fuel]; [reflexivity|]. exact (IHa fuel acc).
   - intros inl inr n a _ _ IHa fuel acc. destruct fuel as [|fuel]; [reflexivity|]. exact (IHa fuel acc).
   - intros inl inr a _ IHa fuel acc. destruct fuel as [|fuel]; [reflexivity|]. exact (IHa fuel acc).
-  - intros inl inr v x y body _ _ _ IHa fuel acc. destruct fuel as [|fuel]; [reflexivity|]. exact (IHa fuel acc).
+  - intros inl inr l v pre body _ _ IHa fuel acc. destruct fuel as [|fuel]; [reflexivity|]. exact (IHa fuel acc).
   - intros inl inr fuel acc. reflexivity.
   - intros inl inr st r _ IHst _ IHr fuel acc. cbn [fold_left]. rewrite IHr. exact (IHst fuel acc).
 Qed.
